@@ -106,6 +106,16 @@ def build_mesh(case):
     return Mesher().Mesh_Extrude(contour, [], [0, 0, case["ext"]], [case["layers"]], et), 3
 
 
+def main_groups(mesh):
+    """element groups of the main dimension (several for mixed meshes, e.g. QUAD4 + a few TRI3)."""
+    return list(mesh.Get_list_groupElem(mesh.dim))
+
+
+def mixed_tag(mesh):
+    gs = main_groups(mesh)
+    return "" if len(gs) == 1 else ":mixed(" + "+".join(g.elemType.name for g in gs) + ")"
+
+
 def measure_of(mesh, dim):
     return mesh.area if dim == 2 else mesh.volume
 
@@ -164,10 +174,11 @@ def case_geom(i, case, out):
         if dim == 2:
             # the element normal field integrates to the area (embedded Jacobian consistent)
             from EasyFEA.FEM import MatrixType
-            g = mesh.groupElem
-            n = np.asarray(g.Get_normals_e_pg(MatrixType.mass, normalize=False))
-            w = g.Get_weight_pg(MatrixType.mass)
-            Nn = np.linalg.norm(np.einsum("epd,p->d", n, w))
+            Nvec = np.zeros(3)
+            for g in main_groups(mesh):
+                n = np.asarray(g.Get_normals_e_pg(MatrixType.mass, normalize=False))
+                Nvec += np.einsum("epd,p->d", n, g.Get_weight_pg(MatrixType.mass))
+            Nn = np.linalg.norm(Nvec)
             res(out, i, "surface-normal-integral:%s:%s" % (el, stage), "surfnormal:%s:%s" % (el, stage), abs(Nn - meas) <= TOL * meas,
                 "%s %s: |sum of integrated element normals| %.15g, area %.15g" % (el, stage, Nn, meas), Nn, meas)
         if inplane:
@@ -184,8 +195,7 @@ def case_geom(i, case, out):
     if dim == 3 and case.get("reconstruct", True):
         from EasyFEA.Utilities import MeshIO
         from EasyFEA.FEM import Mesh
-        g3 = mesh.groupElem
-        m2 = MeshIO.Surface_reconstruction(Mesh({g3.elemType: g3}))
+        m2 = MeshIO.Surface_reconstruction(Mesh({g3.elemType: g3 for g3 in main_groups(mesh)}))
         N, flux, per = boundary_integrals(m2, 3)
         V = m2.volume
         kind = "3D:reconstructed%s" % (":mirrored" if nsym % 2 else "")
@@ -226,13 +236,14 @@ def evaluate(mesh, f, pts, tol, scale):
 def query_pool(mesh, rng, n):
     """interior points (convex combinations of the vertices of random elements), mesh nodes,
     edge midpoints — all inside the closed mesh by construction."""
-    g = mesh.groupElem
+    gs = main_groups(mesh)
     X = np.asarray(mesh.coord)
-    conn = np.asarray(g.connect)
-    nv = g.Nvertex
     inter, nodes, edges = [], [], []
-    seg = np.asarray(g.segments)
     for _ in range(n):
+        g = gs[int(rng.integers(0, len(gs)))]
+        conn = np.asarray(g.connect)
+        nv = g.Nvertex
+        seg = np.asarray(g.segments)
         e = int(rng.integers(0, g.Ne))
         w = rng.dirichlet(np.ones(nv))
         if g.elemType.name.startswith(("QUAD", "HEXA", "PRISM")):
@@ -240,8 +251,8 @@ def query_pool(mesh, rng, n):
             w = 0.5 * w + 0.5 / nv
         inter.append(w @ X[conn[e, :nv]])
         nodes.append(X[conn[e, int(rng.integers(0, g.nPe))]])
-        s = seg[int(rng.integers(0, len(seg)))]
-        edges.append(0.5 * (X[conn[e, s[0]]] + X[conn[e, s[-1]]]))
+        sg = seg[int(rng.integers(0, len(seg)))]
+        edges.append(0.5 * (X[conn[e, sg[0]]] + X[conn[e, sg[-1]]]))
     return np.array(inter), np.array(nodes), np.array(edges)
 
 
@@ -259,6 +270,8 @@ def run_batches(i, out, mesh, f, pools, el, tag, tol, dim, rng, sizes):
 def case_locate_gmsh(i, case, out):
     rng = np.random.default_rng(case["seed"])
     mesh, dim = build_mesh(case)
+    if mixed_tag(mesh):
+        res(out, i, "info", "mixed-mesh:%s%s" % (case["elem"], mixed_tag(mesh)), True, "gmsh produced a mixed mesh %s for %s" % (mixed_tag(mesh), case["elem"]))
     f = poly_field(case["field"])
     el = case["elem"]
     tol = TOL_ITER if case["iterative"] else TOL
@@ -343,7 +356,11 @@ def _snap(mesh):
 def _same(a, b):
     if isinstance(a, (tuple, list)):
         return len(a) == len(b) and all(_same(x, y) for x, y in zip(a, b))
+    if a is None or b is None:
+        return a is b
     a, b = np.asarray(a), np.asarray(b)
+    if (a.dtype == object or b.dtype == object) and (a.ndim == 0 or b.ndim == 0):
+        return a.shape == b.shape and bool(a.item() == b.item())
     if a.dtype == object or b.dtype == object:
         return a.shape == b.shape and all(_same(x, y) for x, y in zip(a.ravel(), b.ravel()))
     return a.shape == b.shape and np.array_equal(a, b, equal_nan=True)
@@ -376,10 +393,10 @@ def query_families(mesh, U, pts, field_values):
     deformed-configuration option."""
     Mesher, ElemType, Points, Point, Mesh, MatrixType, F = _imports()
     dim = mesh.dim
-    g = mesh.groupElem
+    mains = main_groups(mesh)
     qs = []
     mt = MatrixType.mass
-    groups = [(g.elemType.name, g)] + [(b.elemType.name, b) for b in mesh.Get_list_groupElem(dim - 1)]
+    groups = [(g.elemType.name, g) for g in mains] + [(b.elemType.name, b) for b in mesh.Get_list_groupElem(dim - 1)]
     for nm, gr in groups:
         if gr.dim in (1, 2):
             qs.append(("Get_normals_e_pg:%s" % nm, lambda gr=gr: gr.Get_normals_e_pg(mt)))
@@ -393,8 +410,8 @@ def query_families(mesh, U, pts, field_values):
         qs.append(("Integrate_e:%s" % nm, lambda gr=gr: gr.Integrate_e(lambda x, y, z: x + 2 * y - z, mt)))
     qs.append(("Mesh.Get_normals", lambda: mesh.Get_normals()))
     qs.append(("Mesh.Get_normals:displacementMatrix", lambda: mesh.Get_normals(displacementMatrix=U)))
-    qs.append(("measure/center", lambda: ((mesh.area if dim == 2 else mesh.volume), mesh.center, g.center)))
-    qs.append(("Get_Mapping", lambda: g.Get_Mapping(pts, needCoordinates=True)))
+    qs.append(("measure/center", lambda: ((mesh.area if dim == 2 else mesh.volume), mesh.center, [g.center for g in mains])))
+    qs.append(("Get_Mapping", lambda: [g.Get_Mapping(pts, needCoordinates=True) for g in mains]))
     qs.append(("Evaluate_dofsValues_at_coordinates", lambda: mesh.Evaluate_dofsValues_at_coordinates(pts, field_values)))
     return qs
 
@@ -453,7 +470,7 @@ def case_deformed(i, case, out):
     ref = explicit_copy(mesh, X + U)
     mt = MatrixType.mass
     L = float(np.abs(X).max()) + 1.0
-    groups = [(g.elemType, g) for g in [mesh.groupElem] + list(mesh.Get_list_groupElem(dim - 1))]
+    groups = [(g.elemType, g) for g in main_groups(mesh) + list(mesh.Get_list_groupElem(dim - 1))]
     for et, g in groups:
         g2 = ref.dict_groupElem[et]
         qs = [("Get_GaussCoordinates_e_pg", lambda: g.Get_GaussCoordinates_e_pg(mt, displacementMatrix=U), lambda: g2.Get_GaussCoordinates_e_pg(mt), L)]
@@ -488,27 +505,28 @@ FACE_TYPE = {3: "TRI3", 6: "TRI6", 4: "QUAD4", 8: "QUAD8", 9: "QUAD9"}
 def face_table_checks(i, out, mesh, el, stage):
     Mesher, ElemType, Points, Point, Mesh, MatrixType, F = _imports()
     from EasyFEA.Utilities import MeshIO
-    g = mesh.groupElem
     X = np.asarray(mesh.coord)
-    conn = np.asarray(g.connect)
     mt = MatrixType.mass
-    sdet = np.sign(np.asarray(g.Get_jacobian_e_pg(mt, absoluteValues=False))[:, 0])
-    cen_e = X[conn].mean(1)
-    bad = []
-    for k, row in enumerate(g.faces):
-        row = [int(a) for a in row]
-        gf = F.Create(getattr(ElemType, FACE_TYPE[len(row)]), conn[:, row], X)
-        n = np.einsum("epd,p->ed", np.asarray(gf.Get_normals_e_pg(mt, normalize=False)), gf.Get_weight_pg(mt))
-        outv = X[conn[:, row]].mean(1) - cen_e
-        s = np.sign(np.einsum("ed,ed->e", n, outv))
-        if np.any(s * sdet <= 0):
-            bad.append((k, row))
-    res(out, i, "faces-table-orientation:%s" % el, "facesorient:%s:%s" % (el, stage), not bad,
-        "%s (%s, %d element(s), det J %s): right-hand-rule normal of the `faces` rows %s points %s" % (
-            el, stage, g.Ne, "> 0" if sdet[0] > 0 else "< 0", [b[1] for b in bad] if bad else "all",
-            "INTO the element while the other rows point out (for det J > 0)" if bad else "out of the element for det J > 0 (into it for det J < 0), consistently"),
-        [b[0] for b in bad], [])
-    m2 = MeshIO.Surface_reconstruction(Mesh({g.elemType: g}))
+    for g in main_groups(mesh):
+        gel = g.elemType.name
+        conn = np.asarray(g.connect)
+        sdet = np.sign(np.asarray(g.Get_jacobian_e_pg(mt, absoluteValues=False))[:, 0])
+        cen_e = X[conn].mean(1)
+        bad = []
+        for k, row in enumerate(g.faces):
+            row = [int(a) for a in row]
+            gf = F.Create(getattr(ElemType, FACE_TYPE[len(row)]), conn[:, row], X)
+            n = np.einsum("epd,p->ed", np.asarray(gf.Get_normals_e_pg(mt, normalize=False)), gf.Get_weight_pg(mt))
+            outv = X[conn[:, row]].mean(1) - cen_e
+            sg = np.sign(np.einsum("ed,ed->e", n, outv))
+            if np.any(sg * sdet <= 0):
+                bad.append((k, row))
+        res(out, i, "faces-table-orientation:%s" % gel, "facesorient:%s:%s" % (gel, stage), not bad,
+            "%s (%s, %d element(s), det J %s): right-hand-rule normal of the `faces` rows %s points %s" % (
+                gel, stage, g.Ne, "> 0" if sdet[0] > 0 else "< 0", [b[1] for b in bad] if bad else "all",
+                "INTO the element while the other rows point out (for det J > 0)" if bad else "out of the element for det J > 0 (into it for det J < 0), consistently"),
+            [b[0] for b in bad], [])
+    m2 = MeshIO.Surface_reconstruction(Mesh({g.elemType: g for g in main_groups(mesh)}))
     N, flux, per = boundary_integrals(m2, 3)
     V = mesh.volume
     L = float(np.abs(X).max()) + 1.0
@@ -619,6 +637,24 @@ def case_sequence(i, case, out):
 CASES = {"sequence": case_sequence, "purity": case_purity, "deformed": case_deformed, "faces": case_faces, "geom": case_geom, "locate_gmsh": case_locate_gmsh, "locate_single": case_locate_single, "outside": case_outside}
 
 
+def classify_exception(ex):
+    """'impl' when the exception was raised inside an EasyFEA call issued by the harness with valid
+    arguments (the innermost frames are EasyFEA / its dependencies), 'harness' when it was raised by
+    the harness's own code (innermost frame in this file, or a library called directly from it) or is
+    an API-misuse error of the harness (AmbiguousGroupError: `mesh.groupElem` on a mixed mesh)."""
+    import traceback
+    frames = traceback.extract_tb(ex.__traceback__)
+    here = __file__.replace(".pyc", ".py")
+    last_h = max((k for k, f in enumerate(frames) if f.filename == here), default=-1)
+    below = frames[last_h + 1:]
+    where = "%s:%d in %s" % (frames[-1].filename.split("/")[-1], frames[-1].lineno, frames[-1].name)
+    if type(ex).__name__ == "AmbiguousGroupError":
+        return "harness", where
+    if below and "EasyFEA" in below[0].filename:
+        return "impl", where
+    return "harness", where
+
+
 def run_cases(cases):
     out = []
     for i, c in enumerate(cases):
@@ -626,8 +662,13 @@ def run_cases(cases):
             CASES[c["kind"]](i, c, out)
         except Exception as ex:
             import traceback
-            res(out, i, "harness-exception:%s:%s" % (c["kind"], c.get("elem")), None, False,
-                "case raised %s: %s | %s" % (type(ex).__name__, str(ex)[:200], traceback.format_exc().strip().splitlines()[-3:]))
+            kind, where = classify_exception(ex)
+            key = ("impl-exception:%s:%s:%s" if kind == "impl" else "harness-error:%s:%s:%s") % (c["kind"], c.get("elem"), type(ex).__name__)
+            res(out, i, key, None, False,
+                "case raised %s: %s (%s; raised at %s) | %s" % (type(ex).__name__, str(ex)[:200],
+                    "inside an EasyFEA call" if kind == "impl" else "in the harness's own code — not a statement about the library", where,
+                    traceback.format_exc().strip().splitlines()[-3:]))
+            out[-1]["harness_error"] = kind != "impl"
     return out
 
 
